@@ -133,6 +133,15 @@ def render_overload_module(case: dict) -> str:
 
 # ----------------------------------------------------------------------------- property groups
 PROP_NAMES = ("p", "q")
+# extra of a getter / setter / deleter: (decorators *below* the property / accessor decorator, async def?).
+# Only this order exists in CPython: abstractmethod() cannot flag a property object, and cache(property) is no property.
+ACCESSOR_EXTRAS = (
+    ([], False),
+    (["abc.abstractmethod"], False),
+    (["functools.cache"], False),
+    (["functools.lru_cache"], False),
+    ([], True),
+)
 
 
 @st.composite
@@ -140,7 +149,7 @@ def _prop_class(draw, depth: int):
     props = draw(st.lists(st.sampled_from(PROP_NAMES), unique=True, min_size=1, max_size=2))
     groups: list[list[dict]] = []
     for p in props:
-        items = [{"t": "get", "p": p, "ret": int(draw(st.booleans()))}]
+        items = [{"t": "get", "p": p, "ret": int(draw(st.booleans())), "x": draw(st.sampled_from([0, 0, 0, 1, 4]))}]
         for acc in draw(st.lists(st.sampled_from(["set", "del"]), max_size=3)):
             # realistic accessor signatures (self, value) most of the time, arbitrary small shapes otherwise
             if draw(st.integers(0, 2)):
@@ -149,7 +158,8 @@ def _prop_class(draw, depth: int):
                 sig = {"po": po, "pk": n - po, "va": 0, "ko": 0, "vk": 0, "npd": 0, "kom": 0, "ann": draw(st.integers(0, (1 << (n + 1)) - 1))}
             else:
                 sig = draw(sig_models(2))
-            items.append({"t": acc, "p": p, "sig": sig})
+            # accessor stacked with a label-producing decorator / written as `async def` (ACCESSOR_EXTRAS)
+            items.append({"t": acc, "p": p, "sig": sig, "x": draw(st.sampled_from([0, 0, 0, 1, 2, 3, 4]))})
         groups.append(items)
     for i in range(draw(st.integers(0, 2))):
         if draw(st.booleans()):
@@ -169,7 +179,7 @@ def property_cases():
 
 
 def render_property_module(case: dict) -> str:
-    lines = ["from __future__ import annotations"]
+    lines = ["from __future__ import annotations", "import abc", "import functools"]
     counter = [0]
 
     def tag() -> int:
@@ -183,11 +193,14 @@ def render_property_module(case: dict) -> str:
             t = it["t"]
             if t == "get":
                 ret = f" -> G{tag()}" if it["ret"] else ""
+                decos, is_async = ACCESSOR_EXTRAS[it.get("x", 0)]
                 lines.append(f"{indent}@property")
-                lines.append(f"{indent}def {it['p']}(self){ret}: ...")
+                lines.extend(f"{indent}@{d}" for d in decos)
+                lines.append(f"{indent}{'async ' if is_async else ''}def {it['p']}(self){ret}: ...")
             elif t in ("set", "del"):
                 deco = f"{it['p']}.{'setter' if t == 'set' else 'deleter'}"
-                lines.extend(render_fn(it["p"], it["sig"], tag(), [deco], False, indent))
+                decos, is_async = ACCESSOR_EXTRAS[it.get("x", 0)]
+                lines.extend(render_fn(it["p"], it["sig"], tag(), [deco, *decos], is_async, indent))
             elif t == "meth":
                 lines.extend(render_fn(it["name"], it["sig"], tag(), [], False, indent))
             elif t == "attr":
